@@ -49,6 +49,7 @@ def meta(tier, seed):
                   "zero variance -> 1), an arm without data sees the raw query",
         "bounds": {"rows_max": 3 if tier == "quick" else 4, "row_alphabet": 4 if tier == "quick" else 5, "d": [1, 2, 3], "lambdas": LAMBDAS,
                    "policies": [p[0] for p in POLICIES], "query_rows": [1, 2, 3],
+                   "small_units": "histories whose first feature varies by ~3e-4 around 0.02 (all orders of 3-5 of 5 rows, single fit)",
                    "long_history": "one 703-row single-fit history per (policy, lambda, scale, d)",
                    "variants": ["no arm change", "add_arm(3) at the end", "add_arm(3) after the first call, last row relabelled to arm 3"]},
         "assumptions": ["scale=True only with a single fit (running standardisation is excluded by the statement)",
@@ -222,6 +223,24 @@ def run_shard(shard):
                         acc.violation(sig, {"cfg": cfg, "history": hist, "query": q}, msgs[0])
                 if n == 2 and variant == "add_mid_trained":
                     acc.sample({"cfg": cfg, "history": hist, "queries": QUERIES[d]})
+    # a feature recorded in small units (standard deviation between 1e-6 and 1e-3): it must be standardised like any
+    # other feature; only a (numerically) constant feature keeps scale 1
+    small = [(1, [0.02] + [1.0] * (d - 1), 2), (1, [0.0203] + [0.0] * (d - 1), -1), (1, [0.0197] + [2.0] * (d - 1), 0.5),
+             (2, [0.0201] + [1.0] * (d - 1), 2), (1, [0.0206] + [1.0] * (d - 1), 1)]
+    for n in (3, 4, 5):
+        for seq in itertools.permutations(small, n):
+            if n == 5 and seq[0] != small[0]:
+                continue
+            hist = [["fit", [r[0] for r in seq], [r[2] for r in seq], [list(r[1]) for r in seq]]]
+            mab = build(cfg, hist)
+            q = [[0.0202] + [1.0] * (d - 1), [0.0199] + [0.0] * (d - 1)]
+            msgs, out = judge(mab, hist, q, cls, alpha, lam, scale)
+            acc.traces += 1
+            acc.case((shard["p"], lam, scale, d, "small-units", str(seq)))
+            acc.state((shard["p"], lam, scale, d, "small-units", str(seq)))
+            if msgs:
+                acc.violation("%s lam=%s scale=%s d=%d m=2 small-units allobs" % (shard["p"], lam, scale, d),
+                              {"cfg": cfg, "history": hist, "query": q}, msgs[0])
     # one long history per shard
     hist = long_history(d)
     mab = build(cfg, hist)
